@@ -68,7 +68,7 @@ class BaseNode(Node):
     def cast_value(self, value=None):
         """ Cast (raw-)value as a datatype self, or another node
         """
-        if not value:
+        if value is None or (self.keyword!='str' and isinstance(value, str) and value==''):
             if self.value is None:
                 value = self.value_raw
             else:
@@ -132,7 +132,7 @@ class BaseNode(Node):
         """
         if value is None and self.value_raw:
             self.value = self.cast_value()
-        elif value:
+        elif value is not None:
             self.value = value
         else:
             self.value = None
@@ -150,7 +150,12 @@ class BaseNode(Node):
         if isinstance(value, (IntegerType, FloatType)):
             value.unit = node.units_raw
             value.convert(self.units_raw, env)
-        self.set_value(value.value)
+        if value.value is None:   # the node is set to none, its type and units stay
+            if isinstance(value, (IntegerType, FloatType)):
+                value.unit = self.units_raw
+            self.value = value
+        else:
+            self.set_value(value.value)
 
     def slice_value(self, slices, value=None):
         """ Slice part of the value
